@@ -101,8 +101,8 @@ for _w, _what in (("a", "38 zero bits: counts all 0, no values"), ("b", "counts[
 
 # ---- lib.rs -------------------------------------------------------------------------------------
 _J("jb.app_marker_parse", ["C17", "C01"], JLB, JLBM, "app_marker_parse_contract", "complete", ["AppMarker::parse"],
-   "for every input of 0..=3 bytes: Ok iff the bundle is complete; ty == U32(0, 1, 2+u(1), 4+u(2)) in 0..=7, length == u(16)+1 in "
-   "1..=65536, exactly those bits consumed; Err is unexpected-eof; covers show every (ty, length) combination is admitted, e.g. (1, 1), (7, 65536)")
+   "for every input of 0..=3 bytes: Ok iff the bundle is complete AND admissible (ty 0..=3; ICC >= 17, Exif >= 9, XMP >= 32 bytes); "
+   "ty == U32(0, 1, 2+u(1), 4+u(2)), length == u(16)+1, exactly those bits consumed; incomplete => unexpected-eof; inadmissible => hard error")
 _J("jb.expected_lens_total", ["C01", "C17"], JLB, JLBM, "expected_lens_total",
    "bounded:<= 2 APPn entries, both produced by the real AppMarker::parse from 5 symbolic bytes (complete over ty and length)",
    ["JpegBitstreamHeader::expected_icc_len", "JpegBitstreamHeader::expected_exif_len", "JpegBitstreamHeader::expected_xmp_len",
